@@ -240,7 +240,8 @@ package nfsv4
 // lease runs out (C18: no session record is retained for ever).
 //@ func (*nfs41Program).opCreateSession
 //@   props C18
-//@   at call min#1 assert the-new-session-is-the-head-of-the-clients-session-list: cis.sessions.next == session//@   at call min#1 assert the-old-head-points-back-at-the-new-session: session.next.previous == session
+//@   at call min#1 assert the-new-session-is-the-head-of-the-clients-session-list: cis.sessions.next == session
+//@   at call min#1 assert the-old-head-points-back-at-the-new-session: session.next.previous == session
 //@   at call min#1 assert the-new-session-belongs-to-the-client: session.clientIncarnation == cis
 
 // An NFSv4.0 open-owner is only garbage collected (closing whatever it still has
